@@ -17,6 +17,7 @@ import (
 	"fmt"
 	"io"
 	"os"
+	"runtime/debug"
 	"testing"
 	"testing/synctest"
 	"time"
@@ -143,11 +144,16 @@ func restoreAndCheck(stream []byte, cut int, clean bool, index string, m *ek.Mod
 	return "", "", "copy-equal"
 }
 
-func run(t *testing.T, alphabet []op, seq []int, index string, cuts bool) explore.StepResult {
+func run(t *testing.T, alphabet []op, seq []int, index string, cuts, exports bool) explore.StepResult {
 	return explore.Guard(180*time.Second, func() (res explore.StepResult) {
 		dir := ek.NewTempDir("c18")
 		defer os.RemoveAll(dir)
 		synctest.Test(t, func(t *testing.T) {
+			defer func() {
+				if x := recover(); x != nil {
+					res.Violation, res.Sig = fmt.Sprintf("panic: %v\n%s", x, debug.Stack()), "panic"
+				}
+			}()
 			env := &ek.Env{Dir: dir, IndexType: index, BlockSize: 2, WAL: true}
 			if err := env.Open(); err != nil {
 				res.Violation, res.Sig = "open: "+err.Error(), "open-error"
@@ -210,6 +216,24 @@ func run(t *testing.T, alphabet []op, seq []int, index string, cuts bool) explor
 						return
 					}
 				}
+				if exports && len(m.Data) > 0 {
+					for _, b := range exportBounds() {
+						for _, online := range []bool{false, true} {
+							v, s := exportAndCheck(env, m, b[0], b[1], index, online)
+							if v == "" {
+								continue
+							}
+							if hasTombstones(env) && (s == "export:extra-points" || s == "export:missing-point" || s == "export:error" || s == "export:restore-error") {
+								if res.SoftViolation == "" {
+									res.SoftViolation, res.SoftSig, res.SoftDetail = v, s+":pending-deletes", "source layout: "+env.Engine.VLayout()
+								}
+								continue
+							}
+							res.Violation, res.Sig, res.Detail = v, s, "source layout: "+env.Engine.VLayout()
+							return
+						}
+					}
+				}
 				if cuts && len(m.Data) > 0 {
 					for _, cut := range cutPoints(len(stream)) {
 						for _, clean := range []bool{false, true} {
@@ -267,7 +291,7 @@ func TestCheck(t *testing.T) {
 	c.Rule = "states = (model content, physical layout) of the source shard reached by BFS; in every state the shard is backed up and restored into a fresh store and every read of the copy and of the source is compared with the model; for shallow states the stream is cut at every tar boundary (+-1, mid-block), as a reset and as a clean close; distinct = states + outcome classes"
 	c.Assumptions = []string{
 		"copy = Store.BackupShard -> CreateShard + Store.RestoreShard, the calls coordinator.Service makes for a shard copy (the network hop and the metadata update are not part of this check)",
-		"time-bounded (since) backups are not enumerated yet",
+		"time-bounded backups: Store.ExportShard over every [start,end] of 0..6 restored offline and online; oracle: source points inside the range are in the copy, the copy holds only source points (whole blocks may exceed the range); incremental (since) backups are not enumerated",
 	}
 	alphabet := ops()
 	if *replayFile != "" {
@@ -275,7 +299,7 @@ func TestCheck(t *testing.T) {
 		if err != nil {
 			t.Fatal(err)
 		}
-		r := run(t, alphabet, rp.Seq, "inmem", rp.Config["cuts"] == "true")
+		r := run(t, alphabet, rp.Seq, "inmem", rp.Config["cuts"] == "true", rp.Config["exports"] == "true")
 		fmt.Printf("replay %v: violation=%q sig=%q soft=%q\n%s\n", rp.Seq, r.Violation, r.Sig, r.SoftViolation, r.Detail)
 		if r.Violation != "" {
 			report.ExitCode = 1
@@ -284,12 +308,23 @@ func TestCheck(t *testing.T) {
 	}
 	depth := c.Pick(5, 6)
 	r := explore.BFS(explore.BFSConfig{Ops: len(alphabet), Depth: depth, Workers: 16, OpName: func(i int) string { return alphabet[i].name }},
-		func(seq []int) explore.StepResult { return run(t, alphabet, seq, "inmem", false) })
+		func(seq []int) explore.StepResult { return run(t, alphabet, seq, "inmem", false, false) })
 	c.AddBFS("backup+restore in every source state", r, map[string]any{"cuts": false})
 	cdepth := c.Pick(3, 4)
 	r2 := explore.BFS(explore.BFSConfig{Ops: len(alphabet), Depth: cdepth, Workers: 16, OpName: func(i int) string { return alphabet[i].name }},
-		func(seq []int) explore.StepResult { return run(t, alphabet, seq, "inmem", true) })
+		func(seq []int) explore.StepResult { return run(t, alphabet, seq, "inmem", true, false) })
 	c.AddBFS("restore from a stream cut at every tar boundary", r2, map[string]any{"cuts": true})
+	edepth := c.Pick(4, 5)
+	r3 := explore.BFS(explore.BFSConfig{Ops: len(alphabet), Depth: edepth, Workers: 16, OpName: func(i int) string { return alphabet[i].name }},
+		func(seq []int) explore.StepResult { return run(t, alphabet, seq, "inmem", false, true) })
+	c.AddBFS("time-bounded backup of every range in every source state", r3, map[string]any{"exports": true})
+	for _, index := range []string{"inmem", "tsi1"} {
+		v, s, n := wideShard(index, 10050)
+		c.AddCount("wide shard ("+index+" source)", int64(n), map[string]bool{"wide-copy-paths": true}, true, nil)
+		if v != "" {
+			c.Violation(s, v, map[string]any{"scenario": "wide", "config": map[string]any{"index": index}})
+		}
+	}
 	report.ExitCode = c.Finish()
 }
 
